@@ -133,6 +133,7 @@ func (s *SymDense) SetRawSymmetric(mat blas64.Symmetric) {
 func (s *SymDense) Reset() {
 	// N and Stride must be zeroed in unison.
 	s.mat.N, s.mat.Stride = 0, 0
+	s.cap = 0
 	s.mat.Data = s.mat.Data[:0]
 }
 
